@@ -113,14 +113,9 @@ func GenProgram(r *simrt.Run, o GenOpts) *Program {
 	}
 	ni := 2 + r.Choose(3, "gen.nints")
 	for i := 0; i < ni; i++ {
-		// 0 is kept out of structured programs: mangle's hash of a list
-		// ignores zeros ([0], [0, 0] and [] all hash alike), which is the
-		// trigger of the known hash-conflation finding.
-		if o.Structured {
-			g.ints = append(g.ints, IntV(int64(i+1)))
-		} else {
-			g.ints = append(g.ints, IntV(int64(i)))
-		}
+		// zeros matter: mangle's hash of a list ignores them ([0], [0, 0] and
+		// [] all hash alike), the stores have to keep such atoms apart
+		g.ints = append(g.ints, IntV(int64(i)))
 	}
 	for i := 0; i < 3; i++ {
 		g.strs = append(g.strs, StrV(fmt.Sprintf("s%d", i)))
